@@ -243,6 +243,17 @@ def _solve(assertions, timeout_ms):
         s.add(a)
     t0 = time.time()
     r = s.check()
+    if r == z3.unknown and timeout_ms >= Z3_MS and "timeout" in s.reason_unknown() + "canceled":
+        # a full-budget query that ran out of (wall-clock) time: the machine may simply be oversubscribed (several checks
+        # at once); one retry with three times the budget keeps the verdict from flipping with the load.  `sat` / `unsat`
+        # are never revisited, so this cannot turn a decided obligation into another verdict.
+        s2 = z3.Solver()
+        s2.set("timeout", 3 * timeout_ms)
+        for a in assertions:
+            s2.add(a)
+        r2 = s2.check()
+        if r2 != z3.unknown:
+            return r2, s2, time.time() - t0
     return r, s, time.time() - t0
 
 
